@@ -139,7 +139,20 @@ impl<'a, T: Read + Seek> QueueReader<'a, T> {
             return Ok(());
         }
 
+        // Index and ignored packets are skipped until a data packet was decoded,
+        // callers check all queues after every call of this function.
+        loop {
+            let is_data_packet = self.advance_packet()?;
+            if is_data_packet {
+                return Ok(());
+            }
+        }
+    }
+
+    /// Reads the next packet, returns true if it was a data packet.
+    fn advance_packet(&mut self) -> Result<bool> {
         let packet_header = PacketHeader::read(self.reader)?;
+        let is_data_packet = matches!(packet_header, PacketHeader::Data(_));
         match packet_header {
             PacketHeader::Index(header) => {
                 // Just skip over index packets.
@@ -196,7 +209,8 @@ impl<'a, T: Read + Seek> QueueReader<'a, T> {
 
         self.reader
             .align()
-            .read_err("Failed to align reader on next 4-byte offset after reading packet")
+            .read_err("Failed to align reader on next 4-byte offset after reading packet")?;
+        Ok(is_data_packet)
     }
 
     /// Extracts raw values from byte streams into queues.
